@@ -242,6 +242,7 @@ func LoadS2(fset *token.FileSet, scratch string) ([]*Pkg, error) {
 	if n == 0 {
 		return nil, nil
 	}
+	writeContextPairs(mod)
 	return LoadDirs(fset, mod, "S2", []string{"./..."})
 }
 
@@ -572,4 +573,88 @@ func ForEachPkg(fset *token.FileSet, infos []*linter.CheckerInfo, pkgs []*Pkg, f
 	}
 	wg.Wait()
 	return firstErr
+}
+
+// writeContextPairs derives two packages from the function-local comments of the repository's examples: every comment
+// text is placed, character for character, once in an ordinary function (package ctxord) and once in an Example
+// function behind an "Output:" line (package ctxex), and the other way round in one file (package ctxmix). Checkers
+// decide differently in the two contexts; a verdict remembered by TEXT (or by any key that ignores the context) leaks
+// from one into the other.
+func writeContextPairs(mod string) {
+	files, _ := filepath.Glob(filepath.Join(common.RepoDir, "checkers", "testdata", "*", "*.go"))
+	more, _ := filepath.Glob(filepath.Join(StressDir(), "*", "*.go"))
+	files = append(files, more...)
+	sort.Strings(files)
+	seen := map[string]bool{}
+	var texts [][]string
+	for _, fn := range files {
+		fs := token.NewFileSet()
+		f, err := parser.ParseFile(fs, fn, nil, parser.ParseComments)
+		if err != nil {
+			continue
+		}
+		for _, d := range f.Decls {
+			fd, ok := d.(*ast.FuncDecl)
+			if !ok || fd.Body == nil {
+				continue
+			}
+			for _, cg := range f.Comments {
+				if cg.Pos() < fd.Body.Pos() || cg.End() > fd.Body.End() {
+					continue
+				}
+				t := strings.TrimSpace(cg.Text())
+				if t == "" || len(t) > 300 || seen[t] || strings.Contains(t, "*/") {
+					continue
+				}
+				seen[t] = true
+				texts = append(texts, strings.Split(t, "\n"))
+			}
+		}
+	}
+	const maxTexts = 1200
+	if len(texts) > maxTexts {
+		// keep a spread over the whole corpus
+		var pick [][]string
+		for i := 0; i < maxTexts; i++ {
+			pick = append(pick, texts[i*len(texts)/maxTexts])
+		}
+		texts = pick
+	}
+	block := func(b *strings.Builder, lines []string) {
+		b.WriteString("\t// Output:\n")
+		for _, l := range lines {
+			b.WriteString("\t// " + l + "\n")
+		}
+	}
+	var ord, ex, mix strings.Builder
+	ord.WriteString("package ctxord\n\n// GENERATED by the harness (fw.writeContextPairs): comment texts of the examples in ordinary functions\n")
+	ex.WriteString("package ctxex\n\n// GENERATED by the harness (fw.writeContextPairs): the same comment texts in Example functions\n")
+	mix.WriteString("package ctxmix\n\n// GENERATED by the harness (fw.writeContextPairs): both contexts in one file, alternating order\n")
+	for i, t := range texts {
+		fmt.Fprintf(&ord, "\nfunc ordinary%d() int {\n\tx := %d\n", i, i)
+		block(&ord, t)
+		ord.WriteString("\treturn x\n}\n")
+		fmt.Fprintf(&ex, "\nfunc ExampleV%d() {\n\tprintln(%d)\n", i, i)
+		block(&ex, t)
+		ex.WriteString("}\n")
+		if i%4 == 0 {
+			a := fmt.Sprintf("\nfunc ordinaryM%d() int {\n\tx := %d\n", i, i)
+			b := fmt.Sprintf("\nfunc ExampleM%d() {\n\tprintln(%d)\n", i, i)
+			var ba, bb strings.Builder
+			ba.WriteString(a)
+			block(&ba, t)
+			ba.WriteString("\treturn x\n}\n")
+			bb.WriteString(b)
+			block(&bb, t)
+			bb.WriteString("}\n")
+			if i%8 == 0 {
+				mix.WriteString(ba.String() + bb.String())
+			} else {
+				mix.WriteString(bb.String() + ba.String())
+			}
+		}
+	}
+	common.WriteFile(filepath.Join(mod, "ctxord", "a.go"), ord.String())
+	common.WriteFile(filepath.Join(mod, "ctxex", "a.go"), ex.String())
+	common.WriteFile(filepath.Join(mod, "ctxmix", "a.go"), mix.String())
 }
